@@ -9,9 +9,13 @@ mod ops_pattern;
 mod ops_summary;
 mod ops_distinfo;
 mod ops_plist;
+mod ops_index;
 
 fn run(op: &str, args: &[&str]) -> String {
     if let Some(r) = ops_pattern::run(op, args) {
+        return r;
+    }
+    if let Some(r) = ops_index::run(op, args) {
         return r;
     }
     if let Some(r) = ops_plist::run(op, args) {
